@@ -306,6 +306,74 @@ def rule_macro(ctx, rep):
             rep.check(mac in have, "C10.macro", "inventory." + mac, "iteration macro has a witness", "iteration macro %s of %s has no witness: not analysed" % (mac, h), [h])
 
 
+BLOCKING_WFCQ = ["__cds_wfcq_dequeue_blocking", "__cds_wfcq_dequeue_with_state_blocking", "cds_wfcq_dequeue_blocking", "cds_wfcq_dequeue_with_state_blocking",
+                 "__cds_wfcq_splice_blocking", "cds_wfcq_splice_blocking", "__cds_wfcq_first_blocking", "__cds_wfcq_next_blocking"]
+
+
+def rule_blocking(ctx, rep):
+    """the blocking entry points never return the non-blocking sentinel (CDS_WFCQ_WOULDBLOCK / CDS_WFCQ_RET_WOULDBLOCK = -1)"""
+    m = ctx.mod("cds", "flat")
+    for name in BLOCKING_WFCQ:
+        f = m.fn(name)
+        pat.require(f is not None, name + " vanished")
+        rep.touch(f)
+        bad = []
+        for r in f.rets():
+            if r.args:
+                e = ir.expr(f, r.args[0], 8, through_phi=True)
+                if ir.expr_contains(e, lambda z: z == ("c", -1)):
+                    bad.append(r)
+        rep.check(not bad, "C10.blocking", name + ".never-WOULDBLOCK", "never returns the WOULDBLOCK sentinel",
+                  "%s can return -1 (WOULDBLOCK): the blocking variant is built with blocking=0 somewhere" % name, [b.where() for b in bad[:1]])
+
+
+EXPORTED_LOCKED = {
+    "C10": ["cds_wfcq_dequeue_blocking", "cds_wfcq_dequeue_with_state_blocking", "cds_wfcq_splice_blocking", "cds_wfq_dequeue_blocking"],
+    "C11": ["cds_wfs_pop_blocking", "cds_wfs_pop_with_state_blocking", "cds_wfs_pop_all_blocking", "cds_lfs_pop_blocking", "cds_lfs_pop_all_blocking"],
+}
+
+
+def rule_exported_locked(ctx, rep, pid):
+    """The exported (non-inline) locked entry points of liburcu-cds / liburcu-common take the structure's mutex themselves, as
+    their documentation says: in the specialised code of each, every access to the queue / stack words happens with that mutex
+    held.  A wrapper in src/*.c that forwards to the __-prefixed (caller-must-lock) primitive compiles and links alike."""
+    from .. import mm as _mm
+    m = ctx.mod("cds", "flat")
+    for name in EXPORTED_LOCKED[pid]:
+        f = m.fn(name)
+        pat.require(f is not None, name + " vanished")
+        rep.touch(f)
+        must = lockset.compute(f)
+        lk = f.calls("pthread_mutex_lock")
+        if not lk:
+            rep.bad(pid + ".exported", name + ".takes-lock", "%s never takes the structure's mutex although it is the self-locking variant: concurrent consumers corrupt the structure" % name, [f.name])
+            continue
+        bad = []
+        n = 0
+        for i in f.all_insts():
+            if i.op == "call" and m.fn(i.callee) is not None and m.fn(i.callee).linkage == "internal":
+                # a primitive that stayed a call (recursive legacy dequeue): it must be called with the mutex held
+                n += 1
+                if not must.get(i.id):
+                    bad.append(i)
+                continue
+            if i.op not in ("load", "store", "rmw", "cmpxchg", "asm"):
+                continue
+            e = _mm.effect_of(i)
+            if e is None or e.ap is None or e.kind == "fence":
+                continue
+            b = e.ap["base"]
+            if not (b and b[0] in ("a",)):
+                continue
+            if (pat.last_field(e.ap) or "").endswith(".lock"):
+                continue
+            n += 1
+            if not must.get(i.id):
+                bad.append(i)
+        rep.check(n > 0 and not bad, pid + ".exported", name + ".under-lock", "all %d accesses to the structure happen with its mutex held" % n,
+                  "%s touches the structure without holding its mutex" % name, [b.where() for b in bad[:2]])
+
+
 RULES = [
     ("C10.nodeinit", rule_nodeinit),
     ("C10.append", rule_append),
@@ -315,6 +383,8 @@ RULES = [
     ("C10.locked", rule_locked),
     ("C10.legacy", rule_legacy),
     ("C10.iter", rule_iter),
+    ("C10.blocking", rule_blocking),
+    ("C10.exported", lambda c, r: rule_exported_locked(c, r, "C10")),
     ("C10.macro", rule_macro),
 ]
 FLOORS = {}
